@@ -1,348 +1,18 @@
-"""E5 / R-C -- writer / reader / documentation agreement for the TextGrid text formats."""
+"""Small helpers shared by the text-format rules (the syntactic writer/reader rules that used to live here were
+replaced by the interpretive rules of props/textrules.py and props/docmodel.py)."""
 
 import ast
 import json
 import re
-import re._parser as sre_parse  # CPython's regex parser (AST of the regex constants found in the source)
-from typing import Dict, List, Optional, Tuple
+from typing import List
 
 from .index import FuncInfo, Index, Vanished, norm
-
-SLOT_RE = re.compile(r"%(?:\([^)]*\))?[-+ #0]*\d*(?:\.\d+)?([sdrfgeEGi])")
-
-
-class Slot:
-    def __init__(self, fn, node, template, conv, quoted, arg, prefix, spec):
-        self.fn = fn
-        self.node = node  # the BinOp / JoinedStr
-        self.template = template
-        self.conv = conv  # s d r f g ...
-        self.quoted = quoted  # slot sits between two double quotes in the template
-        self.arg = arg  # AST of the argument expression (None if not resolvable)
-        self.prefix = prefix  # template text before the slot (on the same line)
-        self.spec = spec  # the full %-spec text
-
-    @property
-    def key(self):
-        m = re.search(r"([A-Za-z_]+)\s*\??\s*[:=]?\s*(?:size\s*=\s*)?\"?$", self.prefix)
-        return m.group(1) if m else ""
-
-
-def percent_slots(fn: FuncInfo) -> List[Slot]:
-    """Every %-format slot of every  'template' % args  expression in fn."""
-    out = []
-    for n in ast.walk(fn.node):
-        if isinstance(n, ast.BinOp) and isinstance(n.op, ast.Mod) and isinstance(n.left, ast.Constant) and isinstance(n.left.value, str):
-            tpl = n.left.value
-            args = n.right.elts if isinstance(n.right, ast.Tuple) else [n.right]
-            i = 0
-            for m in re.finditer(r"%%|" + SLOT_RE.pattern, tpl):
-                if m.group(0) == "%%":
-                    continue
-                before = tpl[: m.start()]
-                after = tpl[m.end():]
-                quoted = before.endswith('"') and after.startswith('"')
-                line_prefix = before.rsplit("\n", 1)[-1]
-                out.append(Slot(fn, n, tpl, m.group(1), quoted, args[i] if i < len(args) else None, line_prefix, m.group(0)))
-                i += 1
-    return out
-
 
 def is_call_to(idx: Index, fn: FuncInfo, node, name: str) -> bool:
     if not isinstance(node, ast.Call):
         return False
     r = idx.resolve_symbol(fn.module, node.func) if isinstance(node.func, (ast.Name, ast.Attribute)) else None
     return isinstance(r, FuncInfo) and r.name == name
-
-
-def single_def(fn: FuncInfo, name: str):
-    """The unique assignment 'name = expr' in fn (None if zero or several)."""
-    defs = []
-    for n in ast.walk(fn.node):
-        if isinstance(n, ast.Assign) and len(n.targets) == 1 and isinstance(n.targets[0], ast.Name) and n.targets[0].id == name:
-            defs.append(n.value)
-        elif isinstance(n, (ast.For, ast.comprehension)):
-            for x in ast.walk(n.target):
-                if isinstance(x, ast.Name) and x.id == name:
-                    defs.append(None)
-    return defs[0] if len(defs) == 1 else None
-
-
-def is_undouble(node) -> bool:
-    """re.sub(r'""', '"', x)  or  x.replace('""', '"')."""
-    if not isinstance(node, ast.Call):
-        return False
-    f = norm(node.func)
-    if f == "re.sub" and len(node.args) >= 3:
-        a, b = node.args[0], node.args[1]
-        return isinstance(a, ast.Constant) and a.value == '""' and isinstance(b, ast.Constant) and b.value == '"'
-    if isinstance(node.func, ast.Attribute) and node.func.attr == "replace" and len(node.args) == 2:
-        a, b = node.args
-        return isinstance(a, ast.Constant) and a.value == '""' and isinstance(b, ast.Constant) and b.value == '"'
-    return False
-
-
-def is_double(node) -> bool:
-    if isinstance(node, ast.Call) and isinstance(node.func, ast.Attribute) and node.func.attr == "replace" and len(node.args) == 2:
-        a, b = node.args
-        return isinstance(a, ast.Constant) and a.value == '"' and isinstance(b, ast.Constant) and b.value == '""'
-    return False
-
-
-def stmts_in_order(fn: FuncInfo) -> List[ast.stmt]:
-    out = []
-
-    def walk(body):
-        for s in body:
-            out.append(s)
-            for f in ("body", "orelse", "finalbody"):
-                if hasattr(s, f):
-                    walk(getattr(s, f))
-            if isinstance(s, ast.Try):
-                for h in s.handlers:
-                    walk(h.body)
-
-    walk(fn.node.body)
-    return out
-
-
-def enclosing_block(fn: FuncInfo, stmt) -> Optional[List[ast.stmt]]:
-    for n in ast.walk(fn.node):
-        for f in ("body", "orelse", "finalbody"):
-            b = getattr(n, f, None)
-            if isinstance(b, list) and stmt in b:
-                return b
-    return None
-
-
-class Chain:
-    """Backward def-use chain of a variable from a use site to its raw source inside one block."""
-
-    def __init__(self):
-        self.steps: List[ast.AST] = []  # RHS expressions, nearest first
-        self.source: Optional[ast.AST] = None
-        self.tuple_index: Optional[int] = None
-
-
-def chain_of(fn: FuncInfo, use_stmt, name: str) -> Chain:
-    ch = Chain()
-    block = enclosing_block(fn, use_stmt)
-    cur = use_stmt
-    while block is not None:
-        pos = block.index(cur)
-        for s in reversed(block[:pos]):
-            hit = None
-            if isinstance(s, ast.Assign) and len(s.targets) == 1:
-                t = s.targets[0]
-                if isinstance(t, ast.Name) and t.id == name:
-                    hit = (s.value, None)
-                elif isinstance(t, ast.Tuple):
-                    for i, e in enumerate(t.elts):
-                        if isinstance(e, ast.Name) and e.id == name:
-                            hit = (s.value, i)
-            elif isinstance(s, ast.Try):
-                # assignment inside a try body (the short parser fetches rows in a try)
-                for s2 in reversed(s.body):
-                    if isinstance(s2, ast.Assign) and len(s2.targets) == 1 and isinstance(s2.targets[0], ast.Tuple):
-                        for i, e in enumerate(s2.targets[0].elts):
-                            if isinstance(e, ast.Name) and e.id == name:
-                                hit = (s2.value, i)
-                    if hit:
-                        break
-            if hit is None:
-                continue
-            val, ti = hit
-            uses_self = any(isinstance(x, ast.Name) and x.id == name for x in ast.walk(val))
-            if uses_self and ti is None:
-                ch.steps.append(val)
-                continue
-            ch.source = val
-            ch.tuple_index = ti
-            return ch
-        # continue in the enclosing block
-        parent = None
-        for n in ast.walk(fn.node):
-            for f in ("body", "orelse", "finalbody"):
-                b = getattr(n, f, None)
-                if isinstance(b, list) and block is b:
-                    parent = n
-        if parent is None or parent is fn.node:
-            return ch
-        cur = parent
-        block = enclosing_block(fn, parent)
-    return ch
-
-
-# --------------------------------------------------------------------------- constant strings
-
-
-def const_str(idx, fn: FuncInfo, node, depth=0) -> Optional[str]:
-    """Value of a constant string expression: literal, module-level constant, concatenation, constant f-string."""
-    if depth > 6 or node is None:
-        return None
-    if isinstance(node, ast.Constant) and isinstance(node.value, str):
-        return node.value
-    if isinstance(node, ast.Name):
-        mod = fn.module
-        if node.id in mod.const_nodes:
-            return const_str(idx, _ModFn(mod), mod.const_nodes[node.id], depth + 1)
-        al = mod.aliases.get(node.id)
-        if al and al[0] == "symbol":
-            m = idx.modules.get(al[1])
-            if m and al[2] in m.const_nodes:
-                return const_str(idx, _ModFn(m), m.const_nodes[al[2]], depth + 1)
-        # a local assigned exactly once from a constant string expression
-        if getattr(fn, "node", None) is not None:
-            d = single_def(fn, node.id)
-            if d is not None:
-                return const_str(idx, fn, d, depth + 1)
-        return None
-    if isinstance(node, ast.BinOp) and isinstance(node.op, ast.Add):
-        a, b = const_str(idx, fn, node.left, depth + 1), const_str(idx, fn, node.right, depth + 1)
-        return a + b if a is not None and b is not None else None
-    if isinstance(node, ast.JoinedStr):
-        out = ""
-        for v in node.values:
-            if isinstance(v, ast.Constant):
-                out += v.value
-            elif isinstance(v, ast.FormattedValue) and v.format_spec is None and v.conversion == -1:
-                x = const_str(idx, fn, v.value, depth + 1)
-                if x is None:
-                    return None
-                out += x
-            else:
-                return None
-        return out
-    return None
-
-
-class _ModFn:
-    def __init__(self, mod):
-        self.module = mod
-        self.node = None
-        self.params = []
-
-
-# --------------------------------------------------------------------------- regex helpers
-
-
-REGEX_FUNCS = ("reSearch", "re.search", "re.split", "re.match", "re.findall", "re.sub")
-
-
-def _regex_call(n):
-    if not isinstance(n, ast.Call) or not n.args:
-        return False
-    f = norm(n.func)
-    return f in REGEX_FUNCS or f.endswith(".reSearch")
-
-
-def _flags_of(call, consts=None):
-    flags = 0
-    for k in call.keywords:
-        if k.arg == "flags":
-            flags = eval_flags(k.value, consts)
-    if norm(call.func).endswith("reSearch") and len(call.args) >= 3:
-        flags = eval_flags(call.args[2], consts)
-    return flags
-
-
-def _bind_call(tgt: FuncInfo, call: ast.Call):
-    binding = {}
-    for i, a in enumerate(call.args):
-        if i < len(tgt.params):
-            binding[tgt.params[i]] = a
-    for k in call.keywords:
-        if k.arg:
-            binding[k.arg] = k.value
-    for p_, d_ in tgt.defaults.items():
-        binding.setdefault(p_, d_)
-    return binding
-
-
-def regex_templates(idx, fn: FuncInfo, depth=0):
-    """Regex uses of fn, also through private helpers that forward the pattern (any depth <= 4).
-    Each: {'call': node in fn, 'pattern': str|None, 'pparam': name|None, 'flags': int|None, 'fparam': name|None}."""
-    out = []
-    if depth > 4:
-        return out
-    for n in ast.walk(fn.node):
-        if not isinstance(n, ast.Call) or not n.args:
-            continue
-        if _regex_call(n):
-            a0 = n.args[0]
-            pat = const_str(idx, fn, a0) if idx is not None else (a0.value if isinstance(a0, ast.Constant) and isinstance(a0.value, str) else None)
-            pparam = a0.id if pat is None and isinstance(a0, ast.Name) and a0.id in fn.params else None
-            fexpr = None
-            for k in n.keywords:
-                if k.arg == "flags":
-                    fexpr = k.value
-            if norm(n.func).endswith("reSearch") and len(n.args) >= 3:
-                fexpr = n.args[2]
-            if norm(n.func) in ("re.search", "re.match", "re.findall", "re.split") and len(n.args) >= 3 and norm(n.func) != "re.split":
-                fexpr = n.args[2]
-            fparam = fexpr.id if isinstance(fexpr, ast.Name) and fexpr.id in fn.params else None
-            flags = None if fparam else (eval_flags(fexpr) if fexpr is not None else 0)
-            if pat is not None or pparam is not None:
-                out.append({"call": n, "pattern": pat, "pparam": pparam, "flags": flags, "fparam": fparam})
-            continue
-        if idx is None:
-            continue
-        tgt = idx.resolve_symbol(fn.module, n.func) if isinstance(n.func, (ast.Name, ast.Attribute)) else None
-        if isinstance(tgt, FuncInfo) and tgt.module is fn.module and tgt is not fn and tgt.cls is None:
-            binding = _bind_call(tgt, n)
-            for t in regex_templates(idx, tgt, depth + 1):
-                pat, pparam, flags, fparam = t["pattern"], None, t["flags"], None
-                if pat is None and t["pparam"] in binding:
-                    arg = binding[t["pparam"]]
-                    pat = const_str(idx, fn, arg)
-                    if pat is None and isinstance(arg, ast.Name) and arg.id in fn.params:
-                        pparam = arg.id
-                if flags is None and t["fparam"] in binding:
-                    arg = binding[t["fparam"]]
-                    if isinstance(arg, ast.Name) and arg.id in fn.params:
-                        fparam = arg.id
-                    else:
-                        flags = eval_flags(arg)
-                if pat is not None or pparam is not None:
-                    out.append({"call": n, "pattern": pat, "pparam": pparam, "flags": flags, "fparam": fparam})
-    return out
-
-
-def regex_literals(fn: FuncInfo, idx=None) -> List[Tuple[ast.Call, str, int]]:
-    """(call, pattern, flags) for every regex use of fn with a constant pattern (directly, via module constants, or
-    via private helpers forwarding it)."""
-    return [(t["call"], t["pattern"], t["flags"] or 0) for t in regex_templates(idx, fn) if t["pattern"] is not None]
-
-
-def eval_flags(node, consts=None) -> int:
-    if isinstance(node, ast.BinOp) and isinstance(node.op, ast.BitOr):
-        return eval_flags(node.left, consts) | eval_flags(node.right, consts)
-    if isinstance(node, ast.Name) and consts and node.id in consts:
-        return eval_flags(consts[node.id], None)
-    t = norm(node)
-    return {"re.MULTILINE": re.MULTILINE, "re.M": re.MULTILINE, "re.DOTALL": re.DOTALL, "re.S": re.DOTALL, "re.I": re.I, "re.IGNORECASE": re.I}.get(t, 0)
-
-
-def group1_repeat(pattern: str):
-    """('greedy'|'lazy'|None, inner description) of the first capture group's top-level repeat."""
-    try:
-        tree = sre_parse.parse(pattern)
-    except Exception:
-        return None, "unparsable"
-    for op, av in tree:
-        if op == sre_parse.SUBPATTERN:
-            sub = av[3]
-            if len(sub) == 1:
-                op2, av2 = sub[0]
-                if op2 == sre_parse.MAX_REPEAT:
-                    return "greedy", str(av2[2])
-                if op2 == sre_parse.MIN_REPEAT:
-                    return "lazy", str(av2[2])
-            return "other", ""
-    return None, "no group"
-
-
-# --------------------------------------------------------------------------- README schemas
 
 
 def readme_json_blocks(repo: str) -> List[dict]:
@@ -358,182 +28,3 @@ def readme_json_blocks(repo: str) -> List[dict]:
         except ValueError:
             continue
     return out
-
-
-# --------------------------------------------------------------------------- payload operation sequences
-
-
-def _unary_inner(e):
-    """The operand of a unary string operation (strip / replace / re.sub / slice), or None."""
-    if isinstance(e, ast.Call) and isinstance(e.func, ast.Attribute) and e.func.attr in ("strip", "rstrip", "lstrip", "replace") and not (isinstance(e.func.value, ast.Name) and e.func.value.id == "re"):
-        return e.func.value
-    if isinstance(e, ast.Call) and norm(e.func) == "re.sub" and len(e.args) >= 3:
-        return e.args[2]
-    if isinstance(e, ast.Subscript) and isinstance(e.slice, ast.Slice):
-        return e.value
-    return None
-
-
-def _op_of(e) -> str:
-    if is_undouble(e):
-        return "undouble"
-    if is_double(e):
-        return "double"
-    if isinstance(e, ast.Call) and isinstance(e.func, ast.Attribute) and e.func.attr in ("strip", "rstrip", "lstrip") and not e.args:
-        return "strip"
-    if isinstance(e, ast.Subscript) and isinstance(e.slice, ast.Slice):
-        lo = norm(e.slice.lower) if e.slice.lower is not None else ""
-        hi = norm(e.slice.upper) if e.slice.upper is not None else ""
-        return "unquote" if (lo, hi) == ("1", "-1") else "slice"
-    return "other"
-
-
-_PEEL_CTX = []  # (idx, fn) of the function whose expressions are being peeled (helpers are expanded through it)
-
-
-def _helper_transform(e):
-    """If e is a call of a private helper that returns a transformed copy of one argument:
-    (that argument expression, the helper's operations) else None."""
-    if not _PEEL_CTX or not isinstance(e, ast.Call):
-        return None
-    idx, fn, depth = _PEEL_CTX[-1]
-    if depth > 5:
-        return None
-    tgt = idx.resolve_symbol(fn.module, e.func) if isinstance(e.func, (ast.Name, ast.Attribute)) else None
-    if not isinstance(tgt, FuncInfo) or tgt is fn:
-        return None
-    rets = [n for n in ast.walk(tgt.node) if isinstance(n, ast.Return) and n.value is not None]
-    if len(rets) != 1 or isinstance(rets[0].value, ast.Tuple):
-        return None
-    inner = payload_ops(idx, tgt, rets[0], rets[0].value, depth + 1)
-    if inner is None or not inner["source"].startswith("param:"):
-        return None
-    pname = inner["source"][6:]
-    binding = _bind_call(tgt, e)
-    if pname not in binding:
-        return None
-    return binding[pname], inner["ops"]
-
-
-def peel(e):
-    """(base expression, operations applied to it innermost first)."""
-    ops = []
-    while True:
-        inner = _unary_inner(e)
-        if inner is None:
-            ht = _helper_transform(e)
-            if ht is None:
-                return e, list(reversed(ops))
-            arg, hops = ht
-            ops.extend(reversed(hops))
-            e = arg
-            continue
-        ops.append(_op_of(e))
-        e = inner
-
-
-def expr_ops(e, hole: str) -> Optional[List[str]]:
-    base, ops = peel(e)
-    if isinstance(base, ast.Name) and base.id == hole:
-        return ops
-    return None
-
-
-def payload_ops(idx, fn: FuncInfo, stmt, expr, depth=0):
-    """-> {'source': kind, 'ops': [...], 'pattern': regex or None} describing how the payload `expr` used at `stmt`
-    is derived from raw file text, or None when the derivation is outside the modelled forms."""
-    if depth > 6:
-        return None
-    _PEEL_CTX.append((idx, fn, depth))
-    try:
-        return _payload_ops(idx, fn, stmt, expr, depth)
-    finally:
-        _PEEL_CTX.pop()
-
-
-def _payload_ops(idx, fn, stmt, expr, depth):
-    base, outer = peel(expr)
-    if isinstance(base, ast.Name):
-        hole = base.id
-        ch = chain_of(fn, stmt, hole)
-        if ch.source is None:
-            if hole in fn.params:
-                return {"source": "param:" + hole, "ops": outer, "pattern": None}
-            return None
-        if ch.tuple_index is None:
-            src = payload_ops(idx, fn, _stmt_of(fn, ch.source) or stmt, ch.source, depth + 1)
-        else:
-            src = _source_ops(idx, fn, ch.source, ch.tuple_index, depth)
-        if src is None:
-            return None
-        ops = list(src["ops"])
-        for step in reversed(ch.steps):
-            so = expr_ops(step, hole)
-            if so is None:
-                return None
-            ops += so
-        return {"source": src["source"], "ops": ops + outer, "pattern": src.get("pattern"), "pparam": src.get("pparam")}
-    src = _source_ops(idx, fn, base, None, depth)
-    if src is None:
-        return None
-    return dict(src, ops=list(src["ops"]) + outer)
-
-
-def _source_ops(idx, fn, src, tuple_index, depth):
-    # regex group:  reSearch(P, text, ...).groups()[0]
-    if isinstance(src, ast.Subscript) and isinstance(src.value, ast.Call) and norm(src.value.func).endswith(".groups"):
-        inner = src.value.func.value
-        if _regex_call(inner):
-            pat = const_str(idx, fn, inner.args[0])
-            pp = inner.args[0].id if pat is None and isinstance(inner.args[0], ast.Name) and inner.args[0].id in fn.params else None
-            return {"source": "regex-group", "ops": [], "pattern": pat, "pparam": pp}
-        return None
-    if isinstance(src, ast.Subscript) and isinstance(src.slice, ast.Slice) and isinstance(src.value, ast.Name):
-        # a slice of a text parameter / local: raw text including its delimiters
-        r = expr_ops(src, src.value.id)
-        return {"source": "text-slice", "ops": [o for o in (r or []) if o != "slice"], "pattern": None}
-    if isinstance(src, ast.Name) and src.id in fn.params:
-        return {"source": "param:" + src.id, "ops": [], "pattern": None}
-    if isinstance(src, ast.Call):
-        tgt = idx.resolve_symbol(fn.module, src.func) if isinstance(src.func, (ast.Name, ast.Attribute)) else None
-        if isinstance(tgt, FuncInfo):
-            rets = [n for n in ast.walk(tgt.node) if isinstance(n, ast.Return) and n.value is not None]
-            if len(rets) != 1:
-                return None
-            val = rets[0].value
-            if isinstance(val, ast.Tuple):
-                val = val.elts[tuple_index if tuple_index is not None else 0]
-            inner = payload_ops(idx, tgt, rets[0], val, depth + 1)
-            if inner is None:
-                return None
-            if inner["source"].startswith("param:"):
-                # the helper transforms its argument: continue with the argument at the call site
-                pname = inner["source"][6:]
-                pi = tgt.params.index(pname)
-                arg = src.args[pi] if pi < len(src.args) else next((k.value for k in src.keywords if k.arg == pname), None)
-                if arg is None:
-                    return None
-                # pattern forwarded to a regex helper?
-                if isinstance(arg, (ast.Constant, ast.Name, ast.BinOp, ast.JoinedStr)) and const_str(idx, fn, arg) is not None and False:
-                    pass
-                stmt = _stmt_of(fn, src)
-                outer = payload_ops(idx, fn, stmt, arg, depth + 1) if stmt is not None else None
-                if outer is None:
-                    return None
-                return {"source": outer["source"], "ops": outer["ops"] + inner["ops"], "pattern": outer.get("pattern"), "pparam": outer.get("pparam")}
-            if inner["source"] == "regex-group" and inner.get("pattern") is None and inner.get("pparam"):
-                # the helper searches with a pattern it receives as a parameter: resolve it at this call site
-                binding = _bind_call(tgt, src)
-                arg = binding.get(inner["pparam"])
-                pat = const_str(idx, fn, arg) if arg is not None else None
-                pp = arg.id if pat is None and isinstance(arg, ast.Name) and arg.id in fn.params else None
-                inner = dict(inner, pattern=pat, pparam=pp)
-            return inner
-    return None
-
-
-def _stmt_of(fn: FuncInfo, node):
-    for s in stmts_in_order(fn):
-        if any(n is node for n in ast.walk(s)) and not isinstance(s, (ast.For, ast.While, ast.If, ast.Try, ast.With)):
-            return s
-    return None
